@@ -39,12 +39,14 @@ def R(profile, n, execs, monitor, l1=False, **kw):
     return d
 
 
-def MC(*cfgs, thorough=None):
+def MC(*cfgs, thorough=None, bounded=None):
     out = []
     for c in cfgs:
         out.append(dict(module="MC_Kanal", cfg=("MC_Kanal_%s.cfg" % c, "MC_Kanal_%s.cfg" % c)))
     for c in (thorough or []):
         out.append(dict(module="MC_Kanal", cfg=(None, "MC_Kanal_%s.cfg" % c)))
+    for c in (bounded or []):
+        out.append(dict(module="MC_Kanal", cfg=(None, "MC_Kanal_%s.cfg" % c), bounded=True, timeout=(240, 1500)))
     return out
 
 
@@ -59,12 +61,14 @@ def seq_programs(tier, seed):
         ps += list(gen.gen_seq_core(3, [1]))
         ps += list(gen.gen_seq_core(2, [0, 2, None], flav="aa"))
         ps += list(gen.gen_seq_random(rng, 600))
+        ps += list(gen.gen_seq_futs())
     else:
         ps = list(gen.gen_seq_exhaustive(2, [0, 1, 2, None], flavs=("ss", "aa", "sa", "as")))
         ps += list(gen.gen_seq_exhaustive(3, [0, 1]))
         ps += list(gen.gen_seq_core(3, [0, 2, None]))
         ps += list(gen.gen_seq_core(4, [1], flav="aa"))
         ps += list(gen.gen_seq_random(rng, 20000, lengths=(4, 5, 6, 8, 10, 12)))
+        ps += list(gen.gen_seq_futs(caps=(0, 1, 2, 3), ks=(3, 4, 5), flavs=("aa", "sa")))
     return ps
 
 
@@ -483,6 +487,13 @@ def run_mc(mc, tier, wd, stats):
         return
     r = vlib.tlc(module, cfg, wd, workers=mc.get("workers", (8, 16))[ti], timeout=mc.get("timeout", (240, 3000))[ti],
                  heap=mc.get("heap", ("8g", "40g"))[ti], extra=mc.get("extra"))
+    if r["timeout"] and mc.get("bounded") and not r["violated"] and r["distinct"] > 0:
+        # a time-bounded breadth-first exploration of a configuration too large to finish: no violation in the part explored
+        stats["mc_states"] += r["distinct"]
+        stats["mc_trans"] += r["generated"]
+        stats["mc"].append(dict(module=module, cfg=cfg, distinct=r["distinct"], generated=r["generated"], wall_s=round(r["wall"], 1), complete=False))
+        log("MC %s %s: time-bounded, %d distinct states explored (incomplete), %.1fs" % (module, cfg, r["distinct"], r["wall"]))
+        return
     if r["timeout"]:
         raise vlib.ToolError("model checking timed out: %s %s" % (module, cfg))
     if not r["ok"]:
